@@ -299,6 +299,101 @@ def check_varlist_width(ctx, rule='R-VARLISTWIDTH'):
     ctx.floor('VAR-LIST decode sites judged by R-VARLISTWIDTH', n, 1)
 
 
+def check_start_sync(ctx, rule='R-STARTSYNC'):
+    """updatetflag, overwrite branch: TFLAG is rebuilt from getTimes(); for a time-independent file (SDATE 0 or -635) the times are
+    the 1970001 placeholder, so SDATE/STIME equal the first time flag only if they are stored from the rebuilt variable afterwards"""
+    ctx.rule(rule, 'updatetflag: when TFLAG is rebuilt, SDATE and STIME are stored from its first row after the data stores')
+    io = ctx.src.mod(IO)
+    fn = io.func('ioapi_base.updatetflag')
+    where = 'src/PseudoNetCDF/%s ioapi_base.updatetflag' % IO
+    branch = None
+    for st in fn.body:
+        if isinstance(st, ast.If) and any(isinstance(c, ast.Call) and isinstance(c.func, ast.Attribute) and c.func.attr == 'createVariable' and c.args and const_str(c.args[0]) == 'TFLAG'
+                                          for s2 in st.body for c in ast.walk(s2)):
+            branch = st
+    if branch is None:
+        raise AnalysisError('construct not understood: branch of updatetflag that re-creates TFLAG')
+    tname = None
+    for s2 in branch.body:
+        if isinstance(s2, ast.Assign) and isinstance(s2.targets[0], ast.Name) and isinstance(s2.value, ast.Call) and isinstance(s2.value.func, ast.Attribute) \
+                and s2.value.func.attr == 'createVariable' and s2.value.args and const_str(s2.value.args[0]) == 'TFLAG':
+            tname = s2.targets[0].id
+    if tname is None:
+        ctx.undec(rule, 'updatetflag', where, 'the re-created TFLAG is not held in a local name')
+        return
+    datastores = [s2.lineno for s2 in branch.body if isinstance(s2, ast.Assign) and isinstance(s2.targets[0], ast.Subscript) and norm(s2.targets[0].value) == tname]
+    for attr, col in (('SDATE', 0), ('STIME', 1)):
+        stores = [s2 for s2 in branch.body if isinstance(s2, ast.Assign) and any(norm(t) == 'self.' + attr for t in s2.targets)]
+        good = [s2 for s2 in stores if any(isinstance(x, ast.Subscript) and norm(x.value) == tname and isinstance(x.slice, ast.Tuple) and len(x.slice.elts) == 3
+                                           and isinstance(x.slice.elts[0], ast.Constant) and x.slice.elts[0].value == 0
+                                           and isinstance(x.slice.elts[2], ast.Constant) and x.slice.elts[2].value == col for x in ast.walk(s2.value))
+                and (not datastores or s2.lineno > max(datastores))]
+        if good and stores[-1] is good[-1]:
+            ctx.ok(rule, attr, where, norm(good[-1]))
+        else:
+            ctx.violation(Finding(rule, IO, 'ioapi_base.updatetflag', stores[-1] if stores else branch.body[-1],
+                                  'after TFLAG is rebuilt %s is not stored from its first row (%s[0, 0, %d]): for a time-independent file (SDATE 0 / -635) the rebuilt flags are the '
+                                  '1970001 placeholder while %s keeps the old value, so the start attributes no longer equal the first time flag' % (attr, tname, col, attr)), oid=attr)
+
+
+def check_dim_reset(ctx, rule='R-DIMRESET'):
+    """griddesc.adddims creates LAY and, depending on FTYPE, either ROW and COL or PERIM.  It is called again by setgrid() after the
+    file type or the grid changed: a horizontal dimension that the branch taken now does not create must not survive from the earlier
+    call, so every dimension some branch creates is deleted first (or re-created on every branch)"""
+    ctx.rule(rule, 'griddesc.adddims: every spatial dimension that only some FTYPE branch creates is deleted before the branches')
+    rp = 'cmaqfiles/_griddesc.py'
+    m = ctx.src.mod(rp)
+    fn = m.func('griddesc.adddims')
+    where = 'src/PseudoNetCDF/%s griddesc.adddims' % rp
+
+    def created(stmts):
+        return set(const_str(c.args[0]) for s2 in stmts for c in ast.walk(s2) if isinstance(c, ast.Call) and isinstance(c.func, ast.Attribute) and c.func.attr == 'createDimension'
+                   and c.args and const_str(c.args[0]))
+    sw = [st for st in fn.body if isinstance(st, ast.If) and 'FTYPE' in norm(st.test)]
+    if not sw:
+        ctx.undec(rule, 'adddims', where, 'no FTYPE branch found')
+        return
+    branches, cur = [], sw[0]
+    while True:
+        branches.append(created(cur.body))
+        if len(cur.orelse) == 1 and isinstance(cur.orelse[0], ast.If):
+            cur = cur.orelse[0]
+            continue
+        if cur.orelse and not isinstance(cur.orelse[-1], ast.Raise):
+            branches.append(created(cur.orelse))
+        break
+    some = set().union(*branches)
+    everyb = set.intersection(*branches) if branches else set()
+    need = some - everyb
+    deleted = set()
+    loops = dict()
+    for st in iter_stmts(fn.body):
+        if st.lineno >= sw[0].lineno:
+            break
+        if isinstance(st, ast.For) and isinstance(st.target, ast.Name):
+            it = st.iter
+            names = None
+            if isinstance(it, ast.Call) and isinstance(it.func, ast.Attribute) and it.func.attr == 'split' and const_str(it.func.value) is not None and not it.args:
+                names = const_str(it.func.value).split()
+            elif isinstance(it, (ast.Tuple, ast.List)) and all(const_str(e) is not None for e in it.elts):
+                names = [const_str(e) for e in it.elts]
+            if names:
+                loops[st.target.id] = names
+        if isinstance(st, ast.Delete):
+            for t in st.targets:
+                if isinstance(t, ast.Subscript) and norm(t.value) == 'self.dimensions':
+                    if const_str(t.slice) is not None:
+                        deleted.add(const_str(t.slice))
+                    elif isinstance(t.slice, ast.Name) and t.slice.id in loops:
+                        deleted |= set(loops[t.slice.id])
+    if need <= deleted:
+        ctx.ok(rule, 'adddims', where, 'dimensions %s are created only on some FTYPE branch and all are deleted first (%s)' % (sorted(need), sorted(deleted)))
+    else:
+        ctx.violation(Finding(rule, rp, 'griddesc.adddims', sw[0],
+                              'dimensions %s are created only on some FTYPE branch and are not deleted before the branches: after setgrid() with another file type or grid the '
+                              'dimension of the earlier layout survives with its old length while NROWS / NCOLS describe the new grid' % sorted(need - deleted)))
+
+
 def file_returning_ops(src):
     """public methods of PseudoNetCDFFile that return a (possibly new) file object"""
     m = src.mod(CORE)
@@ -748,6 +843,8 @@ def run(ctx):
     else:
         ctx.violation(Finding('R-TFLAGRESTORE', IO, 'ioapi_base.createVariable', cvf.body[-1], 'TFLAG can be created with a fill value: mask(coords=True) then masks time flags, and the masked/filled flags are decoded as times'), oid='createVariable')
     check_varlist_width(ctx)
+    check_start_sync(ctx)
+    check_dim_reset(ctx)
     # ---- R-COUNTATTR
     for attr, dim in (('NLAYS', 'LAY'), ('NCOLS', 'COL'), ('NROWS', 'ROW')):
         want = "self.%s = len(self.dimensions['%s'])" % (attr, dim)
